@@ -226,7 +226,15 @@ fn ed_case(ctx: &mut Ctx) -> EdCase {
     let mut pk = sk.verifying_key().to_bytes();
     let mut sig = sk.sign(&msg).to_bytes();
     let mut msg = msg;
-    let class = match ctx.rng.below(10) {
+    let class = match ctx.rng.below(11) {
+        10 => {
+            // accepted by a cofactorless *non-strict* verifier, rejected by verify_strict: A and R of small order
+            // (identity / the order-2 point), S = 0:  [0]B = R + [k]A
+            pk.copy_from_slice(&crate::util::unhex(SMALL_ORDER[ctx.rng.below(2) as usize]));
+            sig = [0u8; 64];
+            sig[..32].copy_from_slice(&crate::util::unhex(SMALL_ORDER[0]));
+            "lax-valid-small-order"
+        }
         0 | 1 | 2 => "valid",
         3 => { let i = ctx.rng.below(512) as usize; sig[i / 8] ^= 1 << (i % 8); "sig-bitflip" }
         4 => { let i = ctx.rng.below(256) as usize; pk[i / 8] ^= 1 << (i % 8); "pk-bitflip" }
@@ -304,7 +312,7 @@ fn pick_addr(ctx: &mut Ctx, l: &Layout, len: u64, writable: bool) -> (u64, &'sta
         0 | 1 | 2 if l.sp - l.ssp >= len => (l.ssp + ctx.rng.below(l.sp - l.ssp - len + 1), "stack-owned"),
         3 | 4 if m - l.hp >= len => (l.hp + ctx.rng.below(m - l.hp - len + 1), "heap"),
         5 if l.ssp >= len => (ctx.rng.below(l.ssp - len + 1), "below-ssp"),
-        6 => (l.ssp.saturating_sub(ctx.rng.range(1, len - 1)), "straddle-ssp"),
+        6 => (l.ssp.saturating_sub(ctx.rng.range(1, (len - 1).max(1))), "straddle-ssp"),
         7 => (l.sp.saturating_sub(ctx.rng.below(len)), "straddle-sp"),
         8 => (l.hp.saturating_sub(ctx.rng.range(1, len)), "straddle-hp"),
         9 => (l.sp + ctx.rng.below((l.hp - l.sp).max(1)), "gap"),
@@ -543,6 +551,7 @@ fn vm_sig_case(ctx: &mut Ctx, cv: Curve) -> ([u8; 64], [u8; 32], &'static str) {
 }
 
 pub fn run(ctx: &mut Ctx) {
+    if std::env::var("FV_DEBUG_PANIC").is_ok() { std::panic::set_hook(Box::new(|i| eprintln!("{i}"))); }
     // corpus: fixed vectors first
     {
         let one = small(1);
@@ -561,7 +570,11 @@ pub fn run(ctx: &mut Ctx) {
     let mut ed_cases = Vec::new();
     for _ in 0..ctx.n(400, 20000) { let c = ed_case(ctx); do_ed(ctx, &c); ed_cases.push(c); }
 
-    let mut f = vm_fixture();
+    // building the fixture checks a signed fee input through the real signature code: a panic here is a finding, not a crash
+    let mut f = match ctx.guard(vm_fixture) {
+        Ok(f) => f,
+        Err(p) => { ctx.oracle_fail("panic-vm-fixture", "TransactionBuilder::script(..).add_fee_input().finalize().into_checked()", &p); return }
+    };
     for _ in 0..ctx.n(150, 3000) {
         let cv = if ctx.rng.chance(1, 2) { Curve::K1 } else { Curve::R1 };
         let (sig, msg, class) = vm_sig_case(ctx, cv);
